@@ -52,8 +52,31 @@ def generate(rng, tier):
     cases = []
     for _ in range(n):
         k = rng.choice([1, 2, 3, 4, 5, 8, 16, 32]) if rng.random() < 0.5 else rng.randint(1, 32)
-        op = rng.choice(["order", "read", "write", "bal", "roots", "order"])
+        op = rng.choice(["order", "read", "write", "bal", "roots", "order", "reload"])
         h = _hash(rng)
+        if op == "reload":
+            # discovery refresh: the same client loads 2-3 service lists in turn; some refreshes keep
+            # the endpoints and change the uuids (services re-registered), some add/remove a service
+            k = min(k, 10)
+            us = [u for u in _uuids(rng, k, ties=False)]
+            hosts = [f"h{i}.example" for i in range(k)]
+            lists = [list(zip(us, hosts))]
+            for _ in range(rng.randint(1, 2)):
+                prev = lists[-1]
+                r = rng.random()
+                if r < 0.5:
+                    nus = _uuids(rng, len(prev), ties=False)
+                    nxt = [(nu, hst) for nu, (_, hst) in zip(nus, prev)]
+                elif r < 0.75 and len(prev) > 1:
+                    i = rng.randrange(len(prev))
+                    nxt = prev[:i] + prev[i + 1:]
+                else:
+                    nxt = prev + [(_uuids(rng, 1, ties=False)[0], f"h{len(prev) + rng.randint(10, 99)}.example")]
+                lists.append(nxt)
+            enc = ";".join(",".join(f"{u}:{hst}" for u, hst in l) for l in lists)
+            if all(":" not in u for l in lists for u, _ in l):
+                cases.append(f"reload {h} {enc}")
+            continue
         if op == "bal":
             k = min(k, 12)
             us = _uuids(rng, k, ties=False)
@@ -125,6 +148,13 @@ def _split(s):
 
 def compare(case, impl, model):
     """impl is one concrete order; model is the allowed set written as tie groups."""
+    if case.startswith("reload "):
+        f = case.split(" ")
+        lists = f[2].split(";")
+        ii, mm = impl.split(" / "), model.split(" / ")
+        if len(ii) != len(lists) or len(mm) != len(lists):
+            return False
+        return all(compare(f"order {f[1]} x", a, b) for a, b in zip(ii, mm))
     if case.startswith("rootseq "):
         f = case.split(" ")
         locs = f[1].split(";")
@@ -166,6 +196,17 @@ def oracle(case, impl):
                 "not rank the servers in the rendezvous order: " + impl[:200])
     if impl.startswith(("panic", "CRASH", "unexpected", "short")):
         return "driver could not observe an order: " + impl[:200]
+    if f[0] == "reload":
+        lists = f[2].split(";")
+        parts = impl.split(" / ")
+        if len(parts) != len(lists):
+            return "malformed reload output: " + impl[:200]
+        for k, (l, a) in enumerate(zip(lists, parts)):
+            us = ",".join(p.split(":")[0] for p in _split(l)) or "-"
+            why = oracle(f"order {f[1]} {us}", a)
+            if why:
+                return f"after loading service list {k + 1} of {len(lists)} on one client: {why}"
+        return None
     if f[0] == "rootseq":
         locs = f[1].split(";")
         parts = impl.split(" / ")
@@ -208,7 +249,7 @@ def oracle(case, impl):
 
 def nontrivial_key(case, impl):
     f = case.split(" ")
-    n = len(_split(f[2]))
+    n = len(_split(f[2].split(";")[0]))
     return case if n >= 2 else None
 
 
@@ -221,7 +262,7 @@ def describe(cases, impl):
         d[f[0]] = d.get(f[0], 0) + 1
         if f[0] == "bal" and len(f) == 4:
             d["bal_rep>1"] = d.get("bal_rep>1", 0) + 1
-        n = len(_split(f[2]))
+        n = len(_split(f[2].split(";")[0]))
         b = "1" if n == 1 else "2-4" if n <= 4 else "5-16" if n <= 16 else "17-32"
         sizes[b] = sizes.get(b, 0) + 1
     ties = 0
